@@ -655,6 +655,8 @@ def single_caller_helpers(facts, anchors, pinned):
             continue
         if any(cc.fn == fn for cc in h.calls()):
             continue   # recursive
+        if any(cc.fn in ("std::time::SystemTime::now", "std::time::SystemTime::elapsed", "std::time::Instant::now") for cc in h.calls()):
+            continue   # role: a predicate that reads the clock (rules reason about where the clock is read: keep the call visible)
         if any(_is_key_constructor_site(b, c) for (b, c) in ss):
             continue   # role: key constructor (its result is the key / prefix / bound of a fjall operation): rules compare those by callee
         rets = h.return_defs()
@@ -676,6 +678,37 @@ def single_caller_helpers(facts, anchors, pinned):
 def apply(facts, anchors, pinned):
     """Inline until a fixpoint (bounded). Replaces anchor bodies in `facts`; inlined helpers are hidden from all_bodies()."""
     done = []
+    from . import desugar
+    for _ in range(MAX_ROUNDS + 2):
+        # closures with effects handed to immediately-invoking combinators, iterator chains driven by for_each / try_for_each
+        changed = False
+        seen_bodies = set()
+        for (b, bb, fn) in desugar.candidates(facts, anchors):
+            if b.def_ in seen_bodies:
+                continue    # one rewrite per body per round (block indices of the other sites are stale afterwards)
+            cur = facts.body(b.def_)
+            try:
+                res = desugar.desugar_iterator(facts, cur, bb) if fn in desugar.TERMINALS else desugar.desugar_combinator(facts, cur, bb)
+            except Exception:
+                res = None
+            if res is None:
+                continue
+            nj, spliced = res
+            nb = Body(cur.crate, nj)
+            cur.crate.bodies[nb.def_] = nb
+            cur.crate.body_list[cur.crate.body_list.index(cur)] = nb
+            seen_bodies.add(b.def_)
+            changed = True
+            for d in spliced:
+                cb = facts.body(d)
+                if cb is not None:
+                    cb.hidden = True
+                done.append((b.def_, d))
+                if hasattr(anchors, "adopt"):
+                    anchors.adopt(d)
+            facts.inlined = done
+        if not changed:
+            break
     for _ in range(MAX_ROUNDS):
         cands = single_caller_helpers(facts, anchors, pinned)
         if not cands:
